@@ -63,6 +63,8 @@ def build_pool(rng, nmin=1, nmax=3):
             else:
                 cons.append(clpos(x[j] + 0.5) + x[(j + 1) % 3] <= r)
         obj = x[0] + 2 * x[1] - x[2]
+        make.exprs = [cl.weighted_sum_exp(np.array([1.0, 2.0]), x[:2]) - 6.0, cl.vector2norm(x[1:]) + clabs(x[:1])[0] - 5.0,
+                      clpos(x[2:] - 0.5) - 2.0]
         return x, cons, obj
     return make, spec
 
@@ -177,17 +179,25 @@ def subset_history(rng):
     make, spec = build_pool(rng, nmin=2, nmax=4)
     align_atom_counters()
     x, cons, obj = make()
+    exprs = make.exprs
+    late = []        # (index of the user's Expression object, right-hand side): constraints stated from it AFTER earlier compilations
     steps = []
     for step in range(rng.randint(3, 6)):
         idx = sorted(rng.sample(range(2, len(cons)), rng.randint(1, len(cons) - 2)))
         if rng.random() < 0.3:
             idx = idx + [rng.choice(idx)]       # the same constraint object listed twice
-        steps.append(idx)
+        if rng.random() < 0.5:
+            late.append((rng.randrange(len(exprs)), float(rng.choice([0, 0, 1]))))
+        steps.append((idx, list(late)))
         with warnings.catch_warnings():
             warnings.simplefilter('ignore')
-            r1 = cl.Problem(cl.MIN, obj, cons[:2] + [cons[i] for i in idx]).solve(verbose=False)
+            # the user's Expression objects are reused: each time a NEW constraint is stated from the same object
+            extra = [(exprs[k] <= r) if r != 0 else (exprs[k] <= 0) for k, r in late]
+            r1 = cl.Problem(cl.MIN, obj, cons[:2] + [cons[i] for i in idx] + extra).solve(verbose=False)
             xf, cf, of = make()
-            r2 = cl.Problem(cl.MIN, of, cf[:2] + [cf[i] for i in idx]).solve(verbose=False)
+            ef = make.exprs
+            extraf = [(ef[k] <= r) if r != 0 else (ef[k] <= 0) for k, r in late]
+            r2 = cl.Problem(cl.MIN, of, cf[:2] + [cf[i] for i in idx] + extraf).solve(verbose=False)
         if r1[0] != r2[0] or np.isfinite(r1[1]) != np.isfinite(r2[1]) or (np.isfinite(r1[1]) and abs(r1[1] - r2[1]) > 1e-5 * (1 + abs(r2[1]))):
             return ('model spec %s: after building Problems from the subsets %s of the shared constraint objects, the last one solves to %r '
                     'but a freshly built copy of the same constraints solves to %r' % (spec, steps, r1, r2)), {'spec': str(spec), 'subsets': steps}
@@ -277,7 +287,20 @@ def oracle_generations(rng):
                         % (p_old.scalar_variable_ids, pr.A.shape))
             except RuntimeError:
                 pass
-        b = q_new
+        # ... also when the older Variable went through a pickle round trip after the clear
+        import pickle
+        cl.clear_variable_indices()
+        r_old = cl.Variable(shape=(2,), name='gr')
+        cl.clear_variable_indices()
+        r_loaded = pickle.loads(pickle.dumps(r_old))
+        s_new = cl.Variable(shape=(2,), name='gs')
+        try:
+            pr = cl.Problem(cl.MIN, r_loaded[0] + s_new[0], [r_loaded >= 1, s_new >= 2])
+            return ('a Problem mixing a Variable of an earlier generation (pickled and loaded after clear_variable_indices) with a Variable of '
+                    'the current generation was built (A is %s) instead of rejected' % (pr.A.shape,))
+        except RuntimeError:
+            pass
+        b = s_new
         # same generation after the clear: fine
         c2 = cl.Variable(shape=(2,), name='gc')
         st = cl.Problem(cl.MIN, b[0] + c2[1], [b >= 1, c2 >= 2]).solve(verbose=False)
